@@ -58,6 +58,9 @@ EffArch(c) ==
 EffPlatform(c) == IF c.platform = "" THEN "linux" ELSE c.platform
 EffDescription(c) == IF c.description = "" THEN "no description given" ELSE c.description
 
+RECURSIVE SkipZeros(_)
+SkipZeros(s) == IF Len(s) > 0 /\ Ch(s, 1) = "0" THEN SkipZeros(DropPrefix(s, 1)) ELSE s
+
 (* ---- version strings per format ----------------------------------------- *)
 Opt(prefix, s) == IF s = "" THEN "" ELSE prefix \o s
 
@@ -76,11 +79,12 @@ ApkVersion(c) ==
       meta == IF v.meta = "" THEN "" ELSE IF keep(v.meta) THEN v.meta ELSE "p" \o v.meta
   IN v.version \o Opt("_", v.pre) \o Opt("-", rel) \o Opt("-", meta)
 
-ArchRel(c) == IF AllDigits(c.release) THEN NatToStr(ToNat(c.release)) ELSE "1"
+NormNum(s) == LET t == SkipZeros(s) IN IF t = "" THEN "0" ELSE t   \* a digit string as a number, without 32-bit arithmetic
+ArchRel(c) == IF AllDigits(c.release) THEN NormNum(c.release) ELSE "1"
 \* intended: the prerelease is part of pkgver whether or not an epoch is set
 ArchVersion(c) ==
   LET v == EffVersion(c) IN
-  (IF c.epoch # "" /\ AllDigits(c.epoch) THEN NatToStr(ToNat(c.epoch)) \o ":" ELSE "")
+  (IF c.epoch # "" /\ AllDigits(c.epoch) THEN NormNum(c.epoch) \o ":" ELSE "")
     \o v.version \o ReplaceAll(v.pre, "-", "_") \o "-" \o ArchRel(c)
 \* as-is deviation ("ArchPrereleaseNeedsEpoch"): without an epoch the prerelease is dropped
 ArchVersionAsIs(c) ==
@@ -98,8 +102,6 @@ DpkgOrder(c) ==
   ELSE IF c = "~" THEN 0 - 1
   ELSE AsciiOf(c) + 256
 
-RECURSIVE SkipZeros(_)
-SkipZeros(s) == IF Len(s) > 0 /\ Ch(s, 1) = "0" THEN SkipZeros(DropPrefix(s, 1)) ELSE s
 RECURSIVE DigitRun(_)
 DigitRun(s) == IF Len(s) > 0 /\ IsDigit(Ch(s, 1)) THEN Ch(s, 1) \o DigitRun(DropPrefix(s, 1)) ELSE ""
 RECURSIVE NonDigitRun(_)
